@@ -159,15 +159,21 @@ def run(rep, tier, seed):
     rep.level = "fault_enumeration"
     rng = random.Random(seed * 1000003 + 13)
     items = []
+    # the dependency nested inside a larger expression of the context (thorough: every wrapper; quick: one per context)
+    WRAPS = ["%s", "%s + 1", "(%s) * 2", "pure() + %s", "(N > 1 ? %s : 1)", "rdparam(%s)", "-(%s)", "(%s <? 9)", "(K1 > 2 ? 1 : %s)",
+             "CA[0] + (%s)", "(sum (wq : int[0,1]) (%s))"]
     for cn, build in CONTEXTS.items():
-        for d in MUTABLE:
-            m = build(d)
-            if m is not None:
-                items.append((cn, d, True, m))
-        for d in PURE:
-            m = build(d)
-            if m is not None:
-                items.append((cn, d, False, m))
+        wraps = WRAPS if tier != "quick" else ["%s", rng.choice(WRAPS[1:])]
+        for wr in wraps:
+            for d in MUTABLE:
+                m = build(wr % d)
+                if m is not None or wr == "%s":
+                    if m is not None:
+                        items.append((cn, (wr % d) if wr != "%s" else d, True, m))
+            for d in PURE:
+                m = build(wr % d)
+                if m is not None:
+                    items.append((cn, (wr % d) if wr != "%s" else d, False, m))
     for nm, m, rej in free_param_cases():
         items.append((nm, "-", rej, m))
     vs = accept.verdicts([m for _, _, _, m in items], tag="c13")
